@@ -198,6 +198,8 @@ def run(rep, tier):
             return
         if sweep(rep, G, cap, links, tier):
             return
+        if stale_padding(rep, G, tier):
+            return
         from checks import rsutil
         rsutil.run_rs_part(rep, tier, "C17")
         if not rep.violations:
@@ -206,6 +208,23 @@ def run(rep, tier):
     finally:
         for ln in links:
             ln.close()
+
+
+def stale_padding(rep, G, tier):
+    """Cipher buffers: the padding sent after the scoped PDU must not replay octets that went through the private buffer
+    earlier (the previous decrypted reply or the previous request) - 'exposes bytes that were never written' for this message."""
+    from checks import v3hist
+
+    def build(u):
+        cfg = v3hist.g_v3cfg(u, need_priv=True)
+        return {"cfg": cfg, "steps": v3hist.g_steps(u, u.range(2, 10), ["reply", "reply", "reply_pad", "none", "reply_time"])}
+
+    def body(c):
+        info = v3hist.execute(G, c["cfg"], c["steps"], {"stale_pad"})
+        rep.case(repr(v3hist.describe(c["cfg"], c["steps"])), info["requests"] >= 2, classes=["stale_padding_history", "priv:%s" % c["cfg"].priv])
+
+    return core.run_hypothesis(rep, gen.case_strategy(build, 2048), body, 300 if tier == "quick" else 6000,
+                               describe=lambda c: dict(v3hist.describe(c["cfg"], c["steps"]), kind="stale_padding"))
 
 
 def sweep(rep, G, cap, links, tier="thorough"):
@@ -239,6 +258,14 @@ def replay(rep, case, body=None):
         fuzzutil.replay_input(rep, "C17", case)
         return
     G = drivers.load()
+    if case.get("kind") == "stale_padding":
+        from checks import v3hist
+        cfg, steps = v3hist.undescribe(case)
+        try:
+            v3hist.execute(G, cfg, steps, {"stale_pad"})
+        except core.Failure as f:
+            rep.violation(f.signature, case, f.message)
+        return
     links = (ag.NbLink(), ag.NbLink())
     c = {"cfg": gen.cfg_from_json(case["_cfg"]), "oids": [tuple(o) for o in case["oids"]], "target": case["target"], "dim": case["dim"]}
     try:
